@@ -1,3 +1,85 @@
+//! C02 - Map lanes: every subscriber's replica converges to the lane's map.
+//! Engine E1 over the agent-system harness (the small-scope E2 legs over the two coalescing queues
+//! are in the `mapq` module of this crate).
+
+use asys::mapq;
+
+use asys::grid::{grid, replay, run_grid, GridSpec};
+use asys::oracle::{check_c04, check_map, check_take_drop};
+use asys::scripts::*;
+use asys::world::{set_checker, Mode, Observation, Step};
+use vcommon::Ctx;
+
+fn checker(obs: &Observation) -> Vec<(String, String)> {
+    let mut v = check_map(obs, false);
+    v.extend(check_take_drop(obs));
+    for (s, e) in check_c04(obs) {
+        if s.contains("never produced") || s.contains("undecodable") {
+            v.push((s, e));
+        }
+    }
+    v
+}
+
+fn upd(k: i32, v: i32) -> String {
+    format!("@upd{{k:{},v:{}}}", k, v)
+}
+
+fn scripts(quick: bool) -> Vec<(Vec<(usize, Step)>, usize)> {
+    let mut out: Vec<(Vec<(usize, Step)>, usize)> = vec![];
+    let (a1, a2, a3, a4) = (upd(1, 1), upd(2, 2), upd(1, 3), upd(3, 4));
+    // one remote: observer and writer at once, coalescing forced by the 8 byte channel
+    out.push((sequential(&[vec![link("m"), act(&[&a1, &a2, &a3, "@rem(2)", &a4])]]), 1));
+    out.push((sequential(&[vec![link("m"), act(&[&a1, &a2]), act(&["@clr", &a3]), act(&[&a4, "@rem(1)"])]]), 1));
+    out.push((sequential(&[vec![sync("m"), cmd("m", "@update(key:1) 1"), cmd("m", "@update(key:2) 2"), cmd("m", "@remove(key:1)"), cmd("m", "@clear"), cmd("m", "@update(key:3) 3")]]), 1));
+    // take / drop by command (documented key order); all on lane m so that order is defined
+    let u = |k: i32, v: i32| cmd("m", &format!("@update(key:{}) {}", k, v));
+    out.push((sequential(&[vec![sync("m"), u(2, 2), u(3, 4), u(1, 1), cmd("m", "@take(2)")]]), 1));
+    out.push((sequential(&[vec![sync("m"), u(3, 4), u(1, 1), u(2, 2), cmd("m", "@drop(1)"), u(5, 5), cmd("m", "@take(1)")]]), 1));
+    out.push((sequential(&[vec![link("m"), u(1, 1), u(2, 2), u(3, 4), cmd("m", "@drop(2)"), cmd("m", "@take(0)")]]), 1));
+    out.push((sequential(&[vec![link("m"), u(-1, 1), u(10, 2), u(9, 4), cmd("m", "@take(2)")]]), 1));
+    // observer + writer, slow and fast
+    let writer1 = vec![act(&[&a1, &a2]), act(&[&a3, "@rem(2)"]), act(&["@clr", &a4])];
+    let writer2 = vec![cmd("m", "@update(key:1) 1"), act(&[&a2, &a3]), cmd("m", "@remove(key:1)")];
+    let observers: Vec<Vec<Step>> = vec![vec![link("m")], vec![sync("m")]];
+    for w in [&writer1, &writer2] {
+        for o in &observers {
+            for (i, s) in interleavings(&[o.clone(), w.clone()]).into_iter().enumerate() {
+                if !quick || i % 2 == 0 {
+                    out.push((s, 2));
+                }
+            }
+        }
+    }
+    // two observers with different speeds are the same script; two writers:
+    out.push((sequential(&[vec![sync("m")], vec![act(&[&a1, &a2])], vec![act(&[&a3, "@rem(2)"])]]), 3));
+    out
+}
+
 fn main() {
-    vcommon::machinery_failure("C02: engine not built yet");
+    let ctx = Ctx::from_env("C02");
+    set_checker(checker);
+    if let Some(r) = ctx.replay_request() {
+        if r["leg"].as_str().map(|l| l.starts_with("mapq")).unwrap_or(false) {
+            mapq::replay(&ctx, r);
+        } else {
+            replay(&ctx, r);
+        }
+        ctx.finish("model_checking", "replay");
+    }
+    let quick = ctx.quick();
+    mapq::run(&ctx);
+    let sc = scripts(quick);
+    let modes = [Mode::Eager, Mode::Burst, Mode::SlowRead];
+    let cfgs = grid(&sc, if quick { &[8, 4096] } else { &[8, 48, 4096] }, &[2, 64], &modes, &[0]);
+    run_grid(&ctx, GridSpec { name: "as-map-grid-d1".into(), cfgs, bound: 1, max_exec_per_cfg: 20_000, wall_cap_s: if quick { 22.0 } else { 1200.0 } });
+    let core: Vec<_> = sc.iter().filter(|(s, _)| s.len() <= 4).cloned().collect();
+    let cfgs = grid(&core, &[8], &[2, 3], &[Mode::Eager, Mode::SlowRead], &[0, 7]);
+    run_grid(&ctx, GridSpec { name: "as-map-core-d2".into(), cfgs, bound: if quick { 2 } else { 3 }, max_exec_per_cfg: if quick { 20_000 } else { 3_000_000 }, wall_cap_s: if quick { 14.0 } else { 1200.0 } });
+    ctx.assume("tokio select! start index and HashMap iteration order are fixed per VERIF_SEED (deterministic interposer), not enumerated");
+    ctx.assume("AS leg: i32 keys (Recon order = numeric order); textual key variants are covered by the queue-level legs");
+    ctx.finish(
+        "model_checking",
+        "explicit-state search of the two coalescing queues (agent EventQueue/WriteQueues and runtime MapOperationQueue, real code via hooks) against a reference, plus deviation-bounded schedule exploration of the real agent+runtime future with replica-fold oracles",
+    );
 }
